@@ -37,8 +37,52 @@ SCHEDULE
 """
 
 
+# further keywords with a handler in the library, each in two variants (spec/Schedule.tla: Misc)
+MISC = {
+ "COMPORD":  ("well",  ["COMPORD\n %s INPUT /\n/\n", "COMPORD\n %s DEPTH /\n/\n"]),
+ "CSKIN":    ("well",  ["CSKIN\n %s 1* 1* 1 2 0.5 /\n/\n", "CSKIN\n %s 1* 1* 1 1 1.5 /\n/\n"]),
+ "WDFAC":    ("well",  ["WDFAC\n %s 1e-5 /\n/\n", "WDFAC\n %s 3e-5 /\n/\n"]),
+ "WLIFTOPT": ("well",  ["LIFTOPT\n 100 0.1 10 /\nWLIFTOPT\n %s YES 1000 /\n/\n", "LIFTOPT\n 100 0.1 10 /\nWLIFTOPT\n %s NO 500 /\n/\n"]),
+ "WRFT":     ("well",  ["WRFT\n %s /\n/\n", "WRFT\n/\n"]),
+ "WRFTPLT":  ("well",  ["WRFTPLT\n %s YES NO NO /\n/\n", "WRFTPLT\n %s REPT YES NO /\n/\n"]),
+ "WVFPDP":   ("well",  ["WVFPDP\n %s 1.5 1.0 /\n/\n", "WVFPDP\n %s 0.5 0.9 /\n/\n"]),
+ "WVFPEXP":  ("well",  ["WVFPEXP\n %s EXP NO /\n/\n", "WVFPEXP\n %s IMP YES /\n/\n"]),
+ "WWPAVE":   ("well",  ["WWPAVE\n %s 0.3 1.0 WELL OPEN /\n/\n", "WWPAVE\n %s 0.7 0.5 RES ALL /\n/\n"]),
+ "WPAVEDEP": ("well",  ["WPAVEDEP\n %s 2005 /\n/\n", "WPAVEDEP\n %s 2010 /\n/\n"]),
+ "WINJCLN":  ("well",  ["WINJCLN\n %s 0.5 /\n/\n", "WINJCLN\n %s 0.25 /\n/\n"]),
+ "GCONSALE": ("group", ["GCONSALE\n %s 50000 55000 45000 WELL /\n/\n", "GCONSALE\n %s 30000 35000 25000 RATE /\n/\n"]),
+ "GCONSUMP": ("group", ["GCONSUMP\n %s 20 50 /\n/\n", "GCONSUMP\n %s 10 30 /\n/\n"]),
+ "GECON":    ("group", ["GECON\n %s 10 /\n/\n", "GECON\n %s 5 1000 /\n/\n"]),
+ "GLIFTOPT": ("group", ["LIFTOPT\n 100 0.1 10 /\nGLIFTOPT\n %s 200 300 /\n/\n", "LIFTOPT\n 100 0.1 10 /\nGLIFTOPT\n %s 100 150 /\n/\n"]),
+ "GPMAINT":  ("group", ["GPMAINT\n %s WINJ 1 1* 250 1 0.5 /\n/\n", "GPMAINT\n %s NONE /\n/\n"]),
+ "GCONINJG": ("group", ["GCONINJE\n %s GAS RATE 30000 /\n/\n", "GCONINJE\n %s GAS REIN 1* 1* 0.8 /\n/\n"]),
+ "DRSDT":    ("global", ["DRSDT\n 0.01 /\n", "DRSDT\n 0.05 /\n"]),
+ "DRVDT":    ("global", ["DRVDT\n 0.01 /\n", "DRVDT\n 0.03 /\n"]),
+ "VAPPARS":  ("global", ["VAPPARS\n 0.5 0.1 /\n", "VAPPARS\n 1.5 0.2 /\n"]),
+ "GUIDERAT": ("global", ["GUIDERAT\n 0 OIL 1 0.5 1 1 0 0 YES 0.5 /\n", "GUIDERAT\n 10 LIQ 1 1.5 1 1 0 0 NO 0.7 /\n"]),
+ "NETBALAN": ("global", ["NETBALAN\n 1 0.1 /\n", "NETBALAN\n 0 0.5 5 /\n"]),
+ "NUPCOL":   ("global", ["NUPCOL\n 5 /\n", "NUPCOL\n 8 /\n"]),
+ "RPTSCHED": ("global", ["RPTSCHED\n FIP=2 /\n", "RPTSCHED\n RESTART=2 WELLS=1 /\n"]),
+ "RPTONLY":  ("global", ["RPTONLY\n", "RPTONLYO\n"]),
+ "SAVE":     ("global", ["SAVE\n", "SAVE\n"]),
+ "SUMTHIN":  ("global", ["SUMTHIN\n 10 /\n", "SUMTHIN\n 30 /\n"]),
+ "WHISTCTL": ("global", ["WHISTCTL\n ORAT NO /\n", "WHISTCTL\n LRAT NO /\n"]),
+ "WPAVE":    ("global", ["WPAVE\n 0.5 1.0 WELL OPEN /\n", "WPAVE\n 0.2 0.3 RES ALL /\n"]),
+ "WSEGITER": ("global", ["WSEGITER\n 30 40 0.3 2.0 /\n", "WSEGITER\n 10 20 0.5 3.0 /\n"]),
+ "MULTZ":    ("global", ["MULTZ\n 18*0.5 /\n", "MULTX\n 18*0.25 /\n"]),
+ "FBHPDEF":  ("global", ["FBHPDEF\n 2 500 /\n", "FBHPDEF\n 5 300 /\n"]),
+ "MESSAGES": ("global", ["MESSAGES\n 100 /\n", "MESSAGES\n 2* 50 /\n"]),
+ "DRSDTR":   ("global", ["DRSDTR\n 0.01 /\n", "DRSDTR\n 0.02 /\n"]),
+ "MULTPV":   ("global", ["MULTPV\n 18*1.5 /\n", "MULTPV\n 18*0.75 /\n"]),
+}
+
+
 def kw_text(k):
     n = k["kw"]
+    if n == "MISC":
+        kind, vs = MISC[k["name"]]
+        t = vs[k["v"] - 1]
+        return t % (k["well"] if kind == "well" else k["group"]) if "%s" in t else t
     if n == "WELPI":
         return "WELPI\n %s %d /\n/\n" % (k["well"], k["v"])
     if n == "WTEST":
